@@ -15,19 +15,24 @@ pub struct ExPeekable<I: Iterator>(Peekable<I>);
 
 /// the characters the stream will still yield
 pub uninterp spec fn rem<I: Iterator>(p: Peekable<I>) -> Seq<I::Item>;
+/// history variable: the characters the stream has yielded since it was created
+pub uninterp spec fn consumed<I: Iterator>(p: Peekable<I>) -> Seq<I::Item>;
 
 pub assume_specification<I: Iterator>[ <Peekable<I> as Iterator>::next ](p: &mut Peekable<I>) -> (r: Option<I::Item>)
     ensures
-        rem(*old(p)).len() == 0 ==> r is None && rem(*final(p)).len() == 0,
-        rem(*old(p)).len() > 0 ==> r == Some(rem(*old(p))[0]) && rem(*final(p)) == rem(*old(p)).skip(1);
+        rem(*old(p)).len() == 0 ==> r is None && rem(*final(p)).len() == 0 && consumed(*final(p)) == consumed(*old(p)),
+        rem(*old(p)).len() > 0 ==> r == Some(rem(*old(p))[0]) && rem(*final(p)) == rem(*old(p)).skip(1)
+            && consumed(*final(p)) == consumed(*old(p)).push(rem(*old(p))[0]);
 
 /// std Iterator::peekable (a provided trait method Verus cannot give an assume_specification): wrapped (rule X3s)
 #[verifier::external_body]
-pub fn std_peekable<I: Iterator>(it: I) -> (r: Peekable<I>) { it.peekable() }
+pub fn std_peekable<I: Iterator>(it: I) -> (r: Peekable<I>)
+    ensures consumed(r).len() == 0,
+{ it.peekable() }
 
 pub assume_specification<I: Iterator>[ Peekable::<I>::peek ](p: &mut Peekable<I>) -> (r: Option<&I::Item>)
     ensures
-        rem(*final(p)) == rem(*old(p)),
+        rem(*final(p)) == rem(*old(p)), consumed(*final(p)) == consumed(*old(p)),
         rem(*old(p)).len() == 0 ==> r is None,
         rem(*old(p)).len() > 0 ==> r == Some(&rem(*old(p))[0]);
 
@@ -49,12 +54,14 @@ pub assume_specification<F: core::str::FromStr>[ str::parse::<F> ](s: &str) -> (
 #[verifier::external_body]
 pub fn syntax_error<T>(location: Option<[u32; 2]>) -> (r: Result<T>) ensures r is Err { unimplemented!() }
 
-/// the u32 line / column counters cannot overflow while the remaining input is consumed
+/// REPRESENTATION INVARIANT of the Lexer (C15): the stored position is exactly the position after the text
+/// consumed so far, counted from line 1 column 1 -- and the whole text is short enough for the u32 counters.
+/// (Lexer::set_last_location, unused in the crate, is the one public way to break it: ASSUMED not called.)
 pub open spec fn wf_lexer<CharIter: Iterator<Item = char>>(l: Lexer<CharIter>) -> bool {
-    &&& l.location[1] >= 1
-    &&& l.location[0] + rem(l.peekable_char_stream).len() <= u32::MAX
-    &&& l.location[1] + rem(l.peekable_char_stream).len() <= u32::MAX
+    &&& (l.location[0] as int, l.location[1] as int) == pos_after((1, 1), consumed(l.peekable_char_stream))
+    &&& consumed(l.peekable_char_stream).len() + rem(l.peekable_char_stream).len() + 1 < u32::MAX
 }
+
 pub type Token = Located<TokenData>;
 type Result<T> = core::result::Result<T, SchemeError>;
 impl ToLocated for TokenData {}
@@ -109,7 +116,7 @@ UNIT = {
         "peek": "ASSUMED std contract: Peekable::peek shows the head of the remaining input without consuming it",
         "parse": "std str::parse: nothing assumed (may fail)", "ExParseIntError": "std error type (opaque)",
         "syntax_error": "X6: located_error!(SyntaxError::.., loc) builds an Err",
-        "try_next": "ASSUMED CONTRACT: none beyond type (the scanners are not under contract)",
+
     },
     "prelude": PRELUDE,
     "items": [
@@ -121,27 +128,28 @@ UNIT = {
         {"kind": "enum", "file": "src/parser/datum.rs", "name": "Primitive"},
         {"kind": "enum", "file": L, "name": "TokenData"},
         {"kind": "struct", "file": L, "name": "Lexer", "attrs": "#[verifier::reject_recursive_types(CharIter)]"},
+        {"kind": "fn", "file": L, "name": "is_identifier_initial", "contract": ""},
         {"kind": "impl", "file": L, "impl": r"^impl<CharIter: Iterator<Item = char>> Lexer<CharIter>$",
          "methods": {
              "from_char_stream": {"props": ["C15"],
                  "sig_rewrites": [("S1", r"-> Lexer<CharIter>$", "-> (r: Lexer<CharIter>)")],
                  "rewrites": [("X3s", r"char_stream\.peekable\(\)", "std_peekable(char_stream)")],
-                 "contract": "        ensures r.location[0] == 1 && r.location[1] == 1, r.current is None,"},
+                 "contract": """        ensures
+            r.location[0] == 1 && r.location[1] == 1, r.current is None,
+            // the representation invariant holds initially (for a text shorter than 2^32 - 2 characters)
+            rem(r.peekable_char_stream).len() + 1 < u32::MAX ==> wf_lexer(r),"""},
              "advance": {"props": ["C15", "C07"],
                  "sig_rewrites": [("S1", r"-> &mut Option<char>$", "-> (r: &mut Option<char>)")],
-                 "contract": """        requires
-            old(self).location[1] >= 1,
-            // ASSUMPTION: fewer than 2^32 lines / columns
-            old(self).location[0] + rem(old(self).peekable_char_stream).len() <= u32::MAX,
-            old(self).location[1] + rem(old(self).peekable_char_stream).len() <= u32::MAX,
+                 "contract": """        requires wf_lexer(*old(self)),
         ensures ({
             let text = rem(old(self).peekable_char_stream);
             let n = min_int(count as int, text.len() as int);
+            // exactly min(count, remaining) characters are consumed, in order ...
             &&& rem(final(self).peekable_char_stream) == text.skip(n)
-            &&& (final(self).location[0] as int, final(self).location[1] as int)
-                    == pos_after((old(self).location[0] as int, old(self).location[1] as int), text.take(n))
-            // the returned reference points at `current`, which holds the last character consumed (None past the end)
+            &&& consumed(final(self).peekable_char_stream) == consumed(old(self).peekable_char_stream) + text.take(n)
+            // ... and the position is again the position after everything consumed so far
             &&& wf_lexer(*final(self))
+            // the returned reference points at `current`, which holds the last character consumed (None past the end)
             &&& count == 0 ==> *r == old(self).current
             &&& count > 0 ==> *r == (if count <= text.len() { Some(text[count - 1]) } else { None::<char> })
         }),""",
@@ -151,25 +159,25 @@ UNIT = {
                 let k = it.index() as int;
                 let n = min_int(k, text.len() as int);
                 &&& it.seq().len() == count
+                &&& wf_lexer(*old(self))
                 &&& wf_lexer(*self)
-                &&& old(self).location[1] >= 1
-                &&& old(self).location[0] + text.len() <= u32::MAX
-                &&& old(self).location[1] + text.len() <= u32::MAX
                 &&& rem(self.peekable_char_stream) == text.skip(n)
-                &&& (self.location[0] as int, self.location[1] as int)
-                        == pos_after((old(self).location[0] as int, old(self).location[1] as int), text.take(n))
+                &&& consumed(self.peekable_char_stream) == consumed(old(self).peekable_char_stream) + text.take(n)
                 &&& k == 0 ==> self.current == old(self).current
                 &&& k > 0 ==> self.current == (if k <= text.len() { Some(text[k - 1]) } else { None::<char> })
             }),""",
                                "body_start": """            proof {
                 let text = rem(old(self).peekable_char_stream);
                 let k = it.index() as int;
-                let n = min_int(k, text.len() as int);
-                lemma_pos_bounds((old(self).location[0] as int, old(self).location[1] as int), text.take(n));
+                let done = consumed(self.peekable_char_stream);
+                lemma_pos_bounds((1, 1), done);
                 if k < text.len() {
-                    assert(text.take(k + 1).drop_last() =~= text.take(k));
+                    assert(text.take(k + 1) =~= text.take(k).push(text[k]));
                     assert(text.skip(k)[0] == text[k]);
                     assert(text.skip(k).skip(1) =~= text.skip(k + 1));
+                    assert(done.push(text[k]).drop_last() =~= done);
+                    assert(consumed(old(self).peekable_char_stream) + text.take(k + 1)
+                        =~= (consumed(old(self).peekable_char_stream) + text.take(k)).push(text[k]));
                 }
             }"""}},
                  },
@@ -209,23 +217,74 @@ UNIT = {
             r matches Ok(Some(TokenData::Primitive(Primitive::Rational(_, d)))) ==> d != 0,""",
                  "loops": {1: {"expect_kw": "loop", "invariant": """            invariant wf_lexer(*self), rem(self.peekable_char_stream).len() <= rem(old(self).peekable_char_stream).len(),
             decreases rem(self.peekable_char_stream).len(),"""}}},
-             "try_next": {"drop_body": True, "contract": ""},
+
+             "try_next": {"props": ["C15", "C07"],
+                 "rewrites": [("X6", r"located_error!\(\s*SyntaxError::\w+(\([^;]*?\))?,\s*(Some\(self\.location\)|location|Some\(location\))\s*\)", r"syntax_error(\2)", 0, "S")],
+                 "contract": """        requires wf_lexer(*old(self)),
+        ensures wf_lexer(*final(self)), rem(final(self).peekable_char_stream).len() <= rem(old(self).peekable_char_stream).len(),
+        decreases rem(old(self).peekable_char_stream).len(), 0int,"""},
+             "atmosphere": {"props": ["C15", "C07"],
+                 "attrs": "#[verifier::loop_isolation(false)]",
+                 "contract": """        requires wf_lexer(*old(self)),
+        ensures wf_lexer(*final(self)), rem(final(self).peekable_char_stream).len() <= rem(old(self).peekable_char_stream).len(),
+        decreases rem(old(self).peekable_char_stream).len(), 1int,""",
+                 "loops": {1: {"expect_kw": "while", "invariant": """            invariant wf_lexer(*self), rem(self.peekable_char_stream).len() <= rem(old(self).peekable_char_stream).len(),
+            decreases rem(self.peekable_char_stream).len(),"""}}},
+             "comment": {"props": ["C15", "C07"],
+                 "attrs": "#[verifier::loop_isolation(false)]",
+                 "contract": """        requires wf_lexer(*old(self)),
+        ensures wf_lexer(*final(self)), rem(final(self).peekable_char_stream).len() <= rem(old(self).peekable_char_stream).len(),
+        decreases rem(old(self).peekable_char_stream).len(), 1int,""",
+                 "loops": {1: {"expect_kw": "while", "invariant": """            invariant wf_lexer(*self), rem(self.peekable_char_stream).len() <= rem(old(self).peekable_char_stream).len(),
+            decreases rem(self.peekable_char_stream).len(),"""}}},
+             "normal_identifier": {"props": ["C15", "C07"],
+                 "attrs": "#[verifier::loop_isolation(false)]",
+                 "rewrites": [("X6", r"located_error!\(\s*SyntaxError::\w+(\([^;]*?\))?,\s*(Some\(self\.location\)|location|Some\(location\))\s*\)", r"syntax_error(\2)", 0, "S")],
+                 "contract": """        requires wf_lexer(*old(self)),
+        ensures wf_lexer(*final(self)), rem(final(self).peekable_char_stream).len() <= rem(old(self).peekable_char_stream).len(),""",
+                 "loops": {1: {"expect_kw": "while", "invariant": """            invariant wf_lexer(*self), rem(self.peekable_char_stream).len() <= rem(old(self).peekable_char_stream).len(),
+            decreases rem(self.peekable_char_stream).len(),"""}}},
+             "dot_subsequent": {"props": ["C15", "C07"],
+                 "attrs": "#[verifier::loop_isolation(false)]",
+                 "rewrites": [("X6", r"located_error!\(\s*SyntaxError::\w+(\([^;]*?\))?,\s*(Some\(self\.location\)|location|Some\(location\))\s*\)", r"syntax_error(\2)", 0, "S")],
+                 "contract": """        requires wf_lexer(*old(self)),
+        ensures wf_lexer(*final(self)), rem(final(self).peekable_char_stream).len() <= rem(old(self).peekable_char_stream).len(),""",
+                 "loops": {1: {"expect_kw": "loop", "invariant": """            invariant wf_lexer(*self), rem(self.peekable_char_stream).len() <= rem(old(self).peekable_char_stream).len(),
+            decreases rem(self.peekable_char_stream).len(),"""}}},
+             "percular_identifier": {"props": ["C15", "C07"],
+                 "contract": """        requires wf_lexer(*old(self)),
+        ensures wf_lexer(*final(self)), rem(final(self).peekable_char_stream).len() <= rem(old(self).peekable_char_stream).len(),"""},
+             "quoted_identifier": {"props": ["C15", "C07"],
+                 "attrs": "#[verifier::loop_isolation(false)]",
+                 "rewrites": [("X6", r"located_error!\(\s*SyntaxError::\w+(\([^;]*?\))?,\s*(Some\(self\.location\)|location|Some\(location\))\s*\)", r"syntax_error(\2)", 0, "S"), ("X5", r"\bbreak (Ok\()", r"return \1", 0)],
+                 "contract": """        requires wf_lexer(*old(self)),
+        ensures wf_lexer(*final(self)), rem(final(self).peekable_char_stream).len() <= rem(old(self).peekable_char_stream).len(),""",
+                 "loops": {1: {"expect_kw": "loop", "invariant": """            invariant wf_lexer(*self), rem(self.peekable_char_stream).len() <= rem(old(self).peekable_char_stream).len(),
+            decreases rem(self.peekable_char_stream).len(),"""}}},
+             "string": {"props": ["C15", "C07"],
+                 "attrs": "#[verifier::loop_isolation(false)]",
+                 "rewrites": [("X6", r"located_error!\(\s*SyntaxError::\w+(\([^;]*?\))?,\s*(Some\(self\.location\)|location|Some\(location\))\s*\)", r"syntax_error(\2)", 0, "S"), ("X5", r"\bbreak (Ok\()", r"return \1", 0)],
+                 "contract": """        requires wf_lexer(*old(self)),
+        ensures wf_lexer(*final(self)), rem(final(self).peekable_char_stream).len() <= rem(old(self).peekable_char_stream).len(),""",
+                 "loops": {1: {"expect_kw": "loop", "invariant": """            invariant wf_lexer(*self), rem(self.peekable_char_stream).len() <= rem(old(self).peekable_char_stream).len(),
+            decreases rem(self.peekable_char_stream).len(),"""}}},
+
          }},
+        # rule X11: a trait-impl method cannot carry `requires` in Verus (and Iterator has no next_req): the body of
+        # <Lexer as Iterator>::next is verified as an inherent method of the same name (same text, same self type)
         {"kind": "impl", "file": L, "impl": r"^impl<CharIter: Iterator<Item = char>> Iterator for Lexer<CharIter>$",
-         "methods": {"next": {"props": ["C15"],
-             "sig_rewrites": [("S1", r"-> Option<Self::Item>$", "-> (r: Option<Self::Item>)")],
-             "contract": """        ensures
-            // every token carries the lexer's own position (the one `advance` maintains) at the time it was produced
-            r matches Some(Ok(tok)) ==> tok.location == Some(final(self).location),"""}}},
+         "header_rewrites": [("X11", r"impl<CharIter: Iterator<Item = char>> Iterator for Lexer<CharIter>",
+                              "impl<CharIter: Iterator<Item = char>> Lexer<CharIter>")],
+         "drop_assoc_items": True,
+         "methods": {"next": {"props": ["C15", "C07"],
+             "sig_rewrites": [("X11", r"-> Option<Self::Item>$", "-> (r: Option<Result<Token>>)")],
+             "contract": """        requires wf_lexer(*old(self)),
+        ensures
+            // every token carries the lexer's own position at the time it was produced, and that position is the
+            // position after the text consumed so far (representation invariant)
+            r matches Some(Ok(tok)) ==> tok.location == Some(final(self).location),
+            wf_lexer(*final(self)),"""}}},
     ],
     "spec": r"""
-// <Lexer as Iterator>::next carries its own ensures; the Lexer makes no claim to vstd's prophetic iterator laws
-impl<CharIter: Iterator<Item = char>> vstd::std_specs::iter::IteratorSpecImpl for Lexer<CharIter> {
-    open spec fn obeys_prophetic_iter_laws(&self) -> bool { false }
-    open spec fn remaining(&self) -> Seq<Result<Token>> { arbitrary() }
-    open spec fn will_return_none(&self) -> bool { arbitrary() }
-    open spec fn decrease(&self) -> Option<nat> { arbitrary() }
-    open spec fn peek(&self, i: int) -> Option<Result<Token>> { arbitrary() }
-}
 """,
 }
